@@ -3,6 +3,7 @@ package smsim
 import (
 	"encoding/hex"
 	"fmt"
+	"strconv"
 	"strings"
 
 	"github.com/youzan/ZanRedisDB/common"
@@ -54,15 +55,29 @@ func (s *sim) emit() {
 	}
 }
 
+// ---- known finding syncer-conflict-check-live-only ----------------------------
+//
+// Entries written by the log syncer of another cluster (Type FromClusterSyncer)
+// go through preCheckConflict only when they are applied live (!isReplaying):
+// a request whose key was modified at or after the request's timestamp, and
+// every command that has no conflict handler at all (json.*, hclear, hexpire,
+// hpersist, mset, the *mclear family, lfixkey, zfixkey ...), is acknowledged
+// and NOT executed. The same entry replayed from the WAL after a restart is
+// executed. Attributed by ablation (see Run), not by a per-item relaxation.
+
+const keySyncer = "syncer-conflict-check-live-only"
+
 // ---- known finding hll-dirty-cache -------------------------------------------
 //
 // PFADD keeps the sketch in a per-process dirty cache; the KV key space of the
 // engine only learns about the key when the cache entry is written back
 // (eviction, checkpoint, engine close, restore). What the KV (and the legacy
 // bitmap-in-KV) commands see for such a key therefore depends on when this
-// replica last took a checkpoint or restarted. The relaxation: items and
-// replies of KV/bitmap commands on a key that an EARLIER pfadd of the log
-// touched (plus the per-table aggregates such a key feeds) are not compared.
+// replica last took a checkpoint or restarted. The relaxation: for a pair of
+// instances of which at least one wrote its cache back (checkpoint, restore,
+// reopen) after a pfadd on key K had been applied, items and replies of
+// KV/bitmap commands on K (plus the per-table aggregates K feeds) are not
+// compared.
 
 const keyHLL = "hll-dirty-cache"
 
@@ -87,9 +102,30 @@ func (s *sim) indexHLL() {
 	}
 }
 
-func (s *sim) anyPfadd(pos int, pred func(key string) bool) bool {
-	for k, at := range s.firstPfadd {
-		if at < pos && pred(k) {
+// hllActive: did one of the two instances write its HyperLogLog cache back
+// (checkpoint, restore, engine close) or serve a PFCOUNT of its own (Count()
+// merges the sketch's pending set in place, after which PFADD of an element
+// that is already present answers differently) after a pfadd on key was
+// applied? Two instances that never did hold the same cache and are compared
+// in full.
+func (s *sim) hllActive(a, b *inst, key string, before int) bool {
+	at, ok := s.firstPfadd[key]
+	if !ok || at >= before {
+		return false
+	}
+	for _, in := range []*inst{a, b} {
+		for _, f := range in.flushAt {
+			if f > at {
+				return true
+			}
+		}
+	}
+	return false
+}
+
+func (s *sim) anyPfadd(a, b *inst, pos int, pred func(key string) bool) bool {
+	for k := range s.firstPfadd {
+		if pred(k) && s.hllActive(a, b, k, pos) {
 			return true
 		}
 	}
@@ -104,45 +140,37 @@ func tableOfItem(key string) string {
 }
 
 // hllItem: is this logical dump item (taken after pos requests) covered by the relaxation?
-func (s *sim) hllItem(item string, pos int) bool {
+func (s *sim) hllItem(a, b *inst, item string, pos int) bool {
 	p := strings.SplitN(item, "|", 4)
 	switch p[0] {
 	case clKV, clBit:
-		at, ok := s.firstPfadd[p[1]]
-		return ok && at < pos
+		return s.hllActive(a, b, p[1], pos)
 	case "table":
-		return s.anyPfadd(pos, func(k string) bool { return tableOfItem(k) == p[1] })
+		return s.anyPfadd(a, b, pos, func(k string) bool { return tableOfItem(k) == p[1] })
 	case "tables":
-		return s.anyPfadd(pos, func(string) bool { return true })
+		return s.anyPfadd(a, b, pos, func(string) bool { return true })
 	case "scan":
-		return p[1] == clKV && s.anyPfadd(pos, func(k string) bool { return tableOfItem(k) >= p[2] })
+		return p[1] == clKV && s.anyPfadd(a, b, pos, func(k string) bool { return tableOfItem(k) >= p[2] })
 	case "exp":
 		if p[1] != clKV && p[1] != clBit {
 			return false
 		}
-		at, ok := s.firstPfadd[p[2]]
-		return ok && at < pos
+		return s.hllActive(a, b, p[2], pos)
 	}
 	return false
 }
 
-func (s *sim) hllReq(r *req) bool {
+func (s *sim) hllReq(a, b *inst, r *req) bool {
 	for _, k := range r.keys {
 		i := strings.IndexByte(k, '|')
 		cl, key := k[:i], k[i+1:]
 		if cl != clKV && cl != clBit {
 			continue
 		}
-		at, ok := s.firstPfadd[key]
-		if !ok || at >= r.idx {
-			continue
-		}
-		if !r.hll {
-			return true
-		}
-		// a pfadd after earlier pfadds sees the same sketch whether it is
-		// cached or written back, unless another command wrote the key between
-		if o, ok := s.firstOther[key]; ok && o < r.idx {
+		// also a later pfadd: a sketch that went through write-back + reload
+		// (sparse list merged by the encoder) answers "changed" differently
+		// from the one still held in the cache (pending temporary set)
+		if s.hllActive(a, b, key, r.idx) {
 			return true
 		}
 	}
@@ -150,6 +178,8 @@ func (s *sim) hllReq(r *req) bool {
 }
 
 // hllPhys: physical entries whose content depends on the write-back instant.
+// (Unlike the logical view, the stored bytes differ as soon as only one side
+// has written back, whether or not a KV command looked at them.)
 func (s *sim) hllPhys(item string, pos int) bool {
 	raw, err := hex.DecodeString(strings.TrimPrefix(item, "phys|"))
 	if err != nil || len(raw) == 0 {
@@ -161,12 +191,249 @@ func (s *sim) hllPhys(item string, pos int) bool {
 		return false
 	}
 	rs := string(raw)
-	return s.anyPfadd(pos, func(k string) bool {
+	for k, at := range s.firstPfadd {
+		if at >= pos {
+			continue
+		}
 		i := strings.IndexByte(k, ':')
 		if raw[0] == 10 {
-			return strings.Contains(rs, k[:i])
+			if strings.Contains(rs, k[:i]) {
+				return true
+			}
+		} else if strings.Contains(rs, k[:i]) && strings.Contains(rs, k[i+1:]) {
+			return true
 		}
-		return strings.Contains(rs, k[:i]) && strings.Contains(rs, k[i+1:])
+	}
+	return false
+}
+
+// ---- known findings hclear-local-clock, zfixkey-local-clock ---------------------
+//
+// rockredis HClear (hclear, hmclear) asks HLen for the size of the hash, and
+// ZFixKey (zfixkey) asks ZRange for the members; both are read APIs that decide
+// "expired" with time.Now(). Under wait_compact a replica that applies such a
+// command at a log time before the key's expiry while its own clock is
+// already past it (lagging follower, replay after a restart) sees an empty
+// collection: hclear answers 0 and keeps the fields the other replicas delete,
+// zfixkey "repairs" the size record of an intact sorted set to 0 (deletes it)
+// and leaves the members behind; with the clock BEHIND the log time the same
+// calls see an expired collection as alive (hclear deletes and counts it).
+// The relaxation, per pair of instances:
+// items/replies of that collection from such a command on (applied by one of
+// the two with its local clock and the command's log time on different sides
+// of an expiry instant of the key) are not compared.
+
+type clockFinding struct {
+	key    string
+	class  string
+	cmds   []string
+	expire string
+	phys   []byte
+}
+
+const keyHClear = "hclear-local-clock"
+const keyZFix = "zfixkey-local-clock"
+
+var clockFindings = []clockFinding{
+	{keyHClear, clHash, []string{"hclear", "hmclear"}, "hexpire", []byte{22, 23}},
+	{keyZFix, clZSet, []string{"zfixkey"}, "zexpire", []byte{26, 27, 28}},
+}
+
+// at returns the index of the first such command on key that one of the two
+// instances applied under the finding's condition (-1: none).
+func (f *clockFinding) at(s *sim, a, b *inst, key string) int {
+	if s.policy != common.WaitCompact {
+		return -1
+	}
+	sec := int64(1000000000)
+	var exps []int64 // candidate expiry instants (s) set by earlier expire commands on key
+	for _, r := range s.log {
+		on := false
+		for _, k := range r.keys {
+			if k == f.class+"|"+key {
+				on = true
+			}
+		}
+		if !on {
+			continue
+		}
+		if r.name == f.expire {
+			if d, err := strconv.ParseInt(string(r.args[2]), 10, 64); err == nil {
+				exps = append(exps, r.ts/sec+d)
+			}
+			continue
+		}
+		is := false
+		for _, c := range f.cmds {
+			if r.name == c {
+				is = true
+			}
+		}
+		if !is {
+			continue
+		}
+		for _, e := range exps {
+			// the command's log time and the replica's clock disagree about "expired"
+			expiredLog := e <= r.ts/sec
+			for _, in := range []*inst{a, b} {
+				if in.lastApplyAt[r.idx] != 0 && (in.lastApplyAt[r.idx]/sec >= e) != expiredLog {
+					return r.idx
+				}
+				if in.applyAt[r.idx] != 0 && (in.applyAt[r.idx]/sec >= e) != expiredLog {
+					return r.idx
+				}
+			}
+		}
+	}
+	return -1
+}
+
+func (f *clockFinding) item(s *sim, a, b *inst, item string, pos int) bool {
+	if s.policy != common.WaitCompact {
+		return false
+	}
+	p := strings.SplitN(item, "|", 4)
+	anyKey := func(pred func(tb string) bool) bool {
+		for _, tb := range tables[:s.ntable] {
+			if !pred(tb) {
+				continue
+			}
+			for _, kk := range keyPool {
+				if h := f.at(s, a, b, tb+":"+kk); h >= 0 && h < pos {
+					return true
+				}
+			}
+		}
+		return false
+	}
+	switch p[0] {
+	case f.class:
+		h := f.at(s, a, b, p[1])
+		return h >= 0 && h < pos
+	case "table":
+		return anyKey(func(tb string) bool { return tb == p[1] })
+	case "tables":
+		return anyKey(func(string) bool { return true })
+	case "scan":
+		return p[1] == f.class && anyKey(func(tb string) bool { return tb >= p[2] })
+	}
+	return false
+}
+
+func (f *clockFinding) req(s *sim, a, b *inst, r *req) bool {
+	for _, k := range r.keys {
+		if strings.HasPrefix(k, f.class+"|") {
+			if h := f.at(s, a, b, k[len(f.class)+1:]); h >= 0 && h <= r.idx {
+				return true
+			}
+		}
+	}
+	return false
+}
+
+func (f *clockFinding) physItem(s *sim, a, b *inst, item string, pos int) bool {
+	if s.policy != common.WaitCompact {
+		return false
+	}
+	raw, err := hex.DecodeString(strings.TrimPrefix(item, "phys|"))
+	if err != nil || len(raw) == 0 {
+		return false
+	}
+	ok := raw[0] == 10 // table meta
+	for _, t := range f.phys {
+		if raw[0] == t {
+			ok = true
+		}
+	}
+	if !ok {
+		return false
+	}
+	rs := string(raw)
+	for _, tb := range tables[:s.ntable] {
+		for _, kk := range keyPool {
+			if strings.Contains(rs, tb) && (raw[0] == 10 || strings.Contains(rs, kk)) {
+				if h := f.at(s, a, b, tb+":"+kk); h >= 0 && h < pos {
+					return true
+				}
+			}
+		}
+	}
+	return false
+}
+
+// ---- known finding batch-abort-on-error ---------------------------------------
+//
+// set/setex/del/hmset on distinct keys share one write batch across the
+// entries of one apply call. When one of them fails in its handler (setex with
+// a duration the proposing node does not validate: 0, negative, not a number;
+// hmset with an over-long field) kvbatchOperator.AbortBatchForError clears the
+// WHOLE write batch and answers every request batched so far with that error.
+// A replica that applied the same entries in smaller batches (or one by one)
+// has executed and acknowledged them. The relaxation: replies of the requests
+// the harness' mirror of the batch operator marks as dropped on one of the two
+// instances, and items of the keys they wrote, are not compared.
+
+const keyAbort = "batch-abort-on-error"
+
+func abortTainted(a, b *inst, pred func(class, key string, at int) bool) bool {
+	for _, in := range []*inst{a, b} {
+		for k, at := range in.abortTaint {
+			i := strings.IndexByte(k, '|')
+			if pred(k[:i], k[i+1:], at) {
+				return true
+			}
+		}
+	}
+	return false
+}
+
+func abortItem(a, b *inst, item string) bool {
+	if len(a.abortTaint) == 0 && len(b.abortTaint) == 0 {
+		return false
+	}
+	p := strings.SplitN(item, "|", 4)
+	switch p[0] {
+	case "table":
+		return abortTainted(a, b, func(_, key string, _ int) bool { return tableOfItem(key) == p[1] })
+	case "tables":
+		return true
+	case "scan":
+		return abortTainted(a, b, func(cl, key string, _ int) bool { return cl == p[1] && tableOfItem(key) >= p[2] })
+	case "exp":
+		return abortTainted(a, b, func(cl, key string, _ int) bool { return sameSpace(cl, p[1]) && key == p[2] })
+	default:
+		return abortTainted(a, b, func(cl, key string, _ int) bool { return sameSpace(cl, p[0]) && key == p[1] })
+	}
+}
+
+func abortReq(a, b *inst, r *req) bool {
+	if a.aborted[r.idx] || b.aborted[r.idx] {
+		return true
+	}
+	for _, k := range r.keys {
+		i := strings.IndexByte(k, '|')
+		if abortTainted(a, b, func(cl, key string, at int) bool { return sameSpace(cl, k[:i]) && key == k[i+1:] && at < r.idx }) {
+			return true
+		}
+	}
+	return false
+}
+
+func abortPhys(a, b *inst, item string) bool {
+	if len(a.abortTaint) == 0 && len(b.abortTaint) == 0 {
+		return false
+	}
+	raw, err := hex.DecodeString(strings.TrimPrefix(item, "phys|"))
+	if err != nil || len(raw) == 0 {
+		return false
+	}
+	rs := string(raw)
+	return abortTainted(a, b, func(_, key string, _ int) bool {
+		i := strings.IndexByte(key, ':')
+		if raw[0] == 10 {
+			return strings.Contains(rs, key[:i])
+		}
+		return strings.Contains(rs, key[:i]) && strings.Contains(rs, key[i+1:])
 	})
 }
 
@@ -309,16 +576,26 @@ func (s *sim) compareAt(pos int) {
 				if s.excused(a, b, item) {
 					return excusedClass
 				}
-				if s.hllItem(item, pos) {
+				if s.hllItem(a, b, item, pos) {
 					return keyHLL
+				}
+				for k := range clockFindings {
+					if clockFindings[k].item(s, a, b, item, pos) {
+						return clockFindings[k].key
+					}
+				}
+				if abortItem(a, b, item) {
+					return keyAbort
 				}
 				return ""
 			})
 			if len(d[excusedClass]) > 0 {
 				c.Probe("difference_excused_local_deletion")
 			}
-			if m := d[keyHLL]; len(m) > 0 {
-				s.found("data-differs", keyHLL, "%s differ: %s", where, strings.Join(m, "; "))
+			for _, k := range []string{keyHLL, keyHClear, keyZFix, keyAbort} {
+				if m := d[k]; len(m) > 0 {
+					s.found("data-differs", k, "%s differ: %s", where, strings.Join(m, "; "))
+				}
 			}
 			if m := d[""]; len(m) > 0 {
 				s.found("data-differs", "", "%s differ: %s", where, strings.Join(m, "; "))
@@ -334,8 +611,13 @@ func (s *sim) compareAt(pos int) {
 				continue
 			}
 			pd := diffDumps(phys[i], phys[j], func(item string) string {
-				if s.hllPhys(item, pos) {
+				if s.hllPhys(item, pos) || abortPhys(a, b, item) {
 					return excusedClass
+				}
+				for k := range clockFindings {
+					if clockFindings[k].physItem(s, a, b, item, pos) {
+						return excusedClass
+					}
 				}
 				return ""
 			})
@@ -346,6 +628,23 @@ func (s *sim) compareAt(pos int) {
 			c.Probe("physical_compared")
 		}
 	}
+}
+
+// knownReq: is what request r does on these two instances covered by the
+// relaxation of a known finding?
+func (s *sim) knownReq(a, b *inst, r *req) string {
+	if s.hllReq(a, b, r) {
+		return keyHLL
+	}
+	if abortReq(a, b, r) {
+		return keyAbort
+	}
+	for k := range clockFindings {
+		if clockFindings[k].req(s, a, b, r) {
+			return clockFindings[k].key
+		}
+	}
+	return ""
 }
 
 func (s *sim) compareReplies() {
@@ -376,10 +675,7 @@ func (s *sim) compareReplies() {
 						continue
 					}
 				}
-				key := ""
-				if s.hllReq(r) {
-					key = keyHLL
-				}
+				key := s.knownReq(a, b, r)
 				s.found("reply-differs", key, "request %d (%s, ts=%d) answered %s on instance %d and %s on instance %d", i, r.String(), r.ts, clip(ra), a.idx, clip(rb), b.idx)
 				if key == "" {
 					return
@@ -406,8 +702,14 @@ func (s *sim) checkDead() {
 	}
 	for _, d := range dead {
 		for _, a := range alive {
-			if a.applied > d.applied {
-				s.found("panic-differs", "", "instance %d died applying request %d.. (%s), instance %d applied the same log up to %d without dying", d.idx, d.applied, d.dead, a.idx, a.applied)
+			if a.applied >= d.panicTo {
+				key := ""
+				for i := d.panicFrom; i < d.panicTo; i++ {
+					if k := s.knownReq(d, a, s.log[i]); k != "" {
+						key = k
+					}
+				}
+				s.found("panic-differs", key, "instance %d died applying request %d.. (%s), instance %d applied the same log up to %d without dying", d.idx, d.applied, d.dead, a.idx, a.applied)
 			}
 		}
 	}
